@@ -59,7 +59,11 @@ func (p *ProxyWriter) Write(buf []byte) (int, error) {
 
 // WriteHeader writes status code.
 func (p *ProxyWriter) WriteHeader(code int) {
-	p.code = code
+	// An informational response (1xx other than 101) precedes the final one and is not the
+	// status of the response: a handler may send 103 and then rely on the implicit 200.
+	if code < 100 || code > 199 || code == http.StatusSwitchingProtocols {
+		p.code = code
+	}
 	p.w.WriteHeader(code)
 }
 
